@@ -143,10 +143,43 @@ def expand_c(fn: FuncInfo, e: ast.AST, depth: int = 3, ctx: Optional[ast.AST] = 
     return ast.parse(unparse(out), mode='eval').body
 
 
+def stored_just_before(fn: FuncInfo, e: ast.AST) -> ast.AST:
+    """`e` with every read of `self.<a>` replaced by V when the handler itself stored `self.<a> = V` in an earlier statement of its own
+    body (unconditionally, exactly once, no await in between): reading the replica field right after replacing it is reading V."""
+    top = fn.node.body
+    here = e
+    while getattr(here, '_parent', None) is not None and here._parent is not fn.node:
+        here = here._parent
+    if getattr(here, '_parent', None) is not fn.node or here not in top:
+        return e
+    at = top.index(here)
+    stores: dict[str, list[tuple[int, ast.AST]]] = {}
+    for n in walk_local(fn.node):
+        if isinstance(n, (ast.Assign, ast.AugAssign, ast.AnnAssign)):
+            for t in (n.targets if isinstance(n, ast.Assign) else [n.target]):
+                if isinstance(t, ast.Attribute) and isinstance(t.value, ast.Name) and t.value.id == 'self':
+                    i = top.index(n) if n in top and isinstance(n, ast.Assign) and len(n.targets) == 1 else -1
+                    stores.setdefault(t.attr, []).append((i, n))
+    sub = {}
+    for a, lst in stores.items():
+        if len(lst) == 1 and 0 <= lst[0][0] < at and not any(isinstance(x, (ast.Await, ast.Yield)) for st in top[lst[0][0]:at] for x in ast.walk(st)):
+            sub[a] = lst[0][1].value
+    if not sub:
+        return e
+
+    class T(ast.NodeTransformer):
+        def visit_Attribute(self, n: ast.Attribute):
+            if isinstance(n.ctx, ast.Load) and isinstance(n.value, ast.Name) and n.value.id == 'self' and n.attr in sub:
+                return ast.parse(unparse(sub[n.attr]), mode='eval').body
+            return self.generic_visit(n)
+    return ast.parse(unparse(T().visit(ast.parse(unparse(e), mode='eval').body)), mode='eval').body
+
+
 def value_class(fn: FuncInfo, e: Optional[ast.AST]) -> str:
     """Provenance class of a value: where does it come from?"""
     if e is None:
         return '-'
+    e = stored_just_before(fn, e)
     if isinstance(e, ast.Name):
         b = built_from(fn, e.id)
         if b:
